@@ -172,6 +172,26 @@ def recognizer(p0: bool, p1: bool, p2: bool, p3: bool, t0: str, t1: str,
                              ts[2], ts[3], toptag, kindsel, scalar_doc)
 
 
+def recognizer_full(p0: bool, p1: bool, p2: bool, t0: str, t1: str, t2: str,
+                    toptag: str, kindsel: int, scalar_doc: bool) -> bool:
+    """
+    pre: len(t0) <= 30 and len(t1) <= 30 and len(t2) <= 30
+    pre: len(toptag) <= 40 and 0 <= kindsel < 3
+    post: __return__
+    """
+    # thorough: hierarchies with <= 3 keys, nothing factored away: every key
+    # subset x every value tag FREE x top tag FREE
+    hi = slice_no(0)
+    n = len(H[hi][3])
+    if n > 3:
+        return True
+    ps, ts = [p0, p1, p2], [t0, t1, t2]
+    if any(ps[n:]) or any(x != '' for x in ts[n:]):
+        return True
+    return _recognizer_level(hi, ps[0], ps[1], ps[2], False, ts[0], ts[1],
+                             ts[2], '', toptag, kindsel, scalar_doc)
+
+
 def recognizer_reach(p0: bool, p1: bool, p2: bool, p3: bool, t0: str,
                      t1: str, t2: str, t3: str, toptag: str, kindsel: int,
                      scalar_doc: bool) -> bool:
@@ -319,6 +339,11 @@ def order_reach(m: int, d: int, tt: int, variant: int) -> bool:
 
 
 CONDITIONS = [
+    {'fn': 'recognizer_full',
+     'slices': [i for i, h in enumerate(H) if len(h[3]) <= 3],
+     'quick': None, 'thorough': 900,
+     'bound': 'hierarchies with <= 3 keys, unfactored: every key subset x '
+              'every value tag FREE x top tag FREE (also a scalar document)'},
     {'fn': 'recognizer', 'slices': list(range(3 * len(H))), 'quick': 110,
      'thorough': 600,
      'bound': 'one slice per (hierarchy/type, factor): factor 0 = all key '
